@@ -717,3 +717,60 @@ def selections(ctx, body, action, arg_index):
             s.contexts = [s.context]
             out.append(s)
     return out
+
+
+def ab_duplicate_free(K):
+    """every insertion into mapped_absorbed_keys, in whatever function, stands under `!mapped_absorbed_keys.contains(key)`
+    for the key it inserts (and nothing is appended to the list wholesale) -> the list never holds a key twice"""
+    n = 0
+    for b in K.fn_bodies:
+        for fx in K.path_fx(b):
+            for e in fx.effects:
+                if e.lst == "AB" and e.kind not in ("ADD", "DEL", "RETAIN", "CALL", "DRAIN"):
+                    return False        # extend / append / anything unclassified may bring a second copy in
+                if e.kind == "ADD" and e.lst == "AB":
+                    n += 1
+                    g = fx.guards_before(e)
+                    if not any(v is False and isinstance(a, tuple) and a[0] == "in" and list_of(a[2]) == "AB" and fx.same_key(a[1], e.key) for a, v in g):
+                        return False
+    return n > 0
+
+
+def forget_from_ab(K, body, fx, k):
+    """positions (indices into fx.path.events) at which the path forgets key k from mapped_absorbed_keys:
+       * `mapped_absorbed_keys.retain(|x| *x != k)` -- every copy goes; or
+       * a complete index loop over the list that removes the first element equal to k and stops -- the only copy goes,
+         PROVIDED the list is duplicate-free (ab_duplicate_free).
+    """
+    from .ktx import Analysis
+    out = [e.pos for e in fx.effects if e.kind == "RETAIN" and e.lst == "AB" and Analysis._retain_removes_key(e) == k]
+    if out:
+        return out
+    dup_free = None
+    for i, ev in enumerate(fx.path.events):
+        if ev.kind != "loop":
+            continue
+        h = ev.a
+        il = index_loop(body, h, loop_enclosing_events(body, h))
+        if il.kind != "for-range" or il.list_term is None or list_of(il.list_term) != "AB" or il.problems or not il.exh_paths:
+            continue
+        ok = bool(il.break_paths)
+        for p in il.cont_paths:
+            f2 = K._one(body, p, "x", None)
+            if [e for e in f2.effects if e.kind in ("EMIT", "ADD", "DEL", "RETAIN", "CALL", "STORE", "APPEND")]:
+                ok = False
+        for p in il.break_paths:
+            f2 = K._one(body, p, "x", None)
+            dels = [e for e in f2.effects if e.kind == "DEL" and e.lst == "AB"]
+            others = [e for e in f2.effects if e.kind in ("EMIT", "ADD", "RETAIN", "CALL", "STORE", "APPEND") or (e.kind == "DEL" and e.lst != "AB")]
+            elem = T("index", il.list_term, il.index)
+            eq = [(a, v) for a, v in f2.all_guards() if isinstance(a, tuple) and a[0] == "eq" and {mir.strip(a[1]), mir.strip(a[2])} == {mir.strip(elem), k}]
+            if len(dels) != 1 or others or not eq or eq[-1][1] is not True or mir.strip(dels[0].key) != mir.strip(elem) or p.outcome[0] != "after-loop":
+                ok = False
+        if not ok:
+            continue
+        if dup_free is None:
+            dup_free = ab_duplicate_free(K)
+        if dup_free:
+            out.append(i)
+    return out
